@@ -115,6 +115,40 @@ func shouldEscapeTextNode(data string) bool {
 	return strings.ContainsAny(data, "<>&\"'")
 }
 
+// renderDoctype serialises a doctype node, e.g. <!DOCTYPE html>, including legacy
+// public and system identifiers when present.
+func renderDoctype(node *html.Node) string {
+	var public, system string
+	hasPublic, hasSystem := false, false
+	for _, a := range node.Attr {
+		switch a.Key {
+		case "public":
+			public, hasPublic = a.Val, true
+		case "system":
+			system, hasSystem = a.Val, true
+		}
+	}
+	quote := func(v string) string {
+		if strings.Contains(v, `"`) {
+			return "'" + v + "'"
+		}
+		return `"` + v + `"`
+	}
+	var sb strings.Builder
+	sb.WriteString("<!DOCTYPE ")
+	sb.WriteString(node.Data)
+	if hasPublic {
+		sb.WriteString(" PUBLIC " + quote(public))
+		if hasSystem {
+			sb.WriteString(" " + quote(system))
+		}
+	} else if hasSystem {
+		sb.WriteString(" SYSTEM " + quote(system))
+	}
+	sb.WriteString(">\n")
+	return sb.String()
+}
+
 func renderNode(w io.Writer, node *html.Node, indent int) error {
 	ctx := VueContext{}
 	return renderNodeWithContext(ctx, w, node, indent)
@@ -136,6 +170,9 @@ func renderNodeWithContext(ctx VueContext, w io.Writer, node *html.Node, indent 
 		} else {
 			_, _ = w.Write([]byte(spaces + node.Data))
 		}
+
+	case html.DoctypeNode:
+		_, _ = w.Write([]byte(renderDoctype(node)))
 
 	case html.ElementNode:
 		// Count children without allocating slice
